@@ -100,6 +100,8 @@ func init() {
 			obPanicRun(c, "C12.1")
 			ob2 := c.R.Ob("C12.2", "sumcheck/S1", "every type switch over a closed sum on the run path is exhaustive (a panicking default is unreachable, no kind silently ignored)", 15)
 			c.S1(ob2, selPkgs(map[string]bool{relInterp: true}, nil, relInterp))
+			ob1b := c.R.Ob("C12.1b", "ctrl/one-per-item", "the allotment function produces exactly one portion per item on every non-error path (callers index the shares by item)", 3)
+			c.OneElementPerIteration(ob1b, relInterp, "(*programState).makeAllotment")
 			obErrNotDropped(c, "C12.3a")
 			obErrImpliesZero(c, "C12.3b")
 		},
